@@ -85,7 +85,7 @@ class ScriptedServer:
                             break
                         elif k == "frames":
                             # an interactive framebuffer: every FramebufferUpdateRequest is answered, act[1] seconds later, by a
-                            # full raw 8x8 update whose colour tells which request it answers (reply #k has red = 40*k)
+                            # full raw 8x8 update whose colour tells which request it answers (reply #k has red = 30*k, k <= 8)
                             self.replies = 0
                             pend = b""
                             c.settimeout(60)
@@ -108,7 +108,7 @@ class ScriptedServer:
                                     if t == 3:
                                         time.sleep(act[1])
                                         self.replies += 1
-                                        px = bytes([(40 * self.replies) % 256, 7, 9, 0]) * 64
+                                        px = bytes([(30 * self.replies) % 256, 7, 9, 0]) * 64
                                         c.sendall(b"\0\0\0\x01" + struct.pack("!HHHHi", 0, 0, 8, 8, 0) + px)
                             break
                         elif k == "silent":
